@@ -41,8 +41,13 @@ RULE = ("SDL configurations from harness.sdl.gen_cfg and nodes pipelines from no
         "exhausted maps); distinct by (configuration, position).")
 EXPLANATION = ("In the functional Lean models state dicts are values; the property's content there is transparency of get "
                "(L1 of Lawful, proved per combinator), idempotence of load and exact resume. Aliasing between live state and a "
-               "returned/loaded dict cannot be expressed in the value model: it is decided by the byte-wise oracle on the real "
-               "objects on every run (which is what found the weighted-sampler aliasing, now fixed).")
+               "returned/loaded dict is modelled at the reference level by TDV.Alias (heap of objects, one live bookkeeping "
+               "object per component, policy = copy on the way out / copy on the way in / in-place updates): "
+               "immutable_of_safe proves for EVERY history that no held dict changes under a safe policy, unsafe_mutates that "
+               "every other policy has a mutating history, load_same_continuation that every load continues from the content at "
+               "hand-over. The K-D leg `alias` observes object identities on the real weighted sampler, Unbatcher, Prefetcher "
+               "and ParallelMapper, infers each site's policy and replays the history in the model. Sites outside that leg "
+               "(StatefulDataLoader's snapshots, Loader) are decided by the byte-wise oracle on the real objects.")
 ASSUMPTIONS = ["deep comparison canonicalises tensors to lists and dict order; pickle is the serialisation the property names"]
 
 
@@ -385,8 +390,10 @@ def replay(ctx: Ctx, payload) -> Tuple[bool, str]:
 
 
 # ------------------------------------------------------------------------------------------------
-from . import _compose, e2en_parts  # noqa: E402
+from . import _compose, alias_kd, e2en_parts  # noqa: E402
 
 _compose.extend(globals(), [
     _compose.theorem_part("e2en", e2en_parts.THEOREMS_BY_PROP.get("C08", []), e2en_parts.LEAN_MODULES),
+    # reference level: heap model TDV.Alias (policy-parametrised immutability theorems) tied to the real objects by identity
+    _compose.Part("alias", alias_kd.run_kd, alias_kd.replay_kd, theorems=alias_kd.THEOREMS, modules=alias_kd.LEAN_MODULES),
 ])
